@@ -221,29 +221,41 @@ def RamseyWitnessFormula(G, k, s, symbreak=True, formula_class=CNF):
     maybeclique = F.new_variable('C')
 
     N = G.order()
-    s = F.new_mapping(k, N, label='s_{{{},{}}}')
-    F.force_complete_mapping(s)
-    F.force_functional_mapping(s)
-    F.force_injective_mapping(s)
+    # One mapping for both alternatives: when C holds its first k
+    # elements must form a clique, otherwise its first s elements
+    # must form an independent set.
+    both = min(k, s)
+    m = F.new_mapping(max(k, s), N, label='s_{{{},{}}}')
+    for i in m.domain():
+        if i <= both:
+            F.add_clause(list(m(i, None)))
+        elif k > s:
+            F.add_clause([-maybeclique] + list(m(i, None)))
+        else:
+            F.add_clause([maybeclique] + list(m(i, None)))
+    F.force_functional_mapping(m)
+    F.force_injective_mapping(m)
 
     # Local consistency
-    localmaps = product(combinations(range(1,k+1), 2),
-                        combinations(range(1,N+1), 2))
+    localmaps = product(combinations(range(1, max(k, s)+1), 2),
+                        combinations(range(1, N+1), 2))
 
     for (i1, i2), (j1, j2) in localmaps:
 
         # check if this mapping is compatible
         edge = G.has_edge(j1, j2)
+        inclique = not edge and i2 <= k    # forbidden in a clique
+        inindset = edge and i2 <= s        # forbidden in an independent set
         # increasing map
-        if not edge:
-            F.add_clause([-maybeclique, -s(i1, j1), -s(i2, j2)])
-        else:
-            F.add_clause([maybeclique, -s(i1, j1), -s(i2, j2)])
+        if inclique:
+            F.add_clause([-maybeclique, -m(i1, j1), -m(i2, j2)])
+        elif inindset:
+            F.add_clause([maybeclique, -m(i1, j1), -m(i2, j2)])
         # decreasing map
         if symbreak:
-            F.add_clause([-s(i1, j2), -s(i2, j1)])
-        elif not edge:
-            F.add_clause([-maybeclique, -s(i1, j2), -s(i2, j1)])
-        else:
-            F.add_clause([maybeclique, -s(i1, j2), -s(i2, j1)])
+            F.add_clause([-m(i1, j2), -m(i2, j1)])
+        elif inclique:
+            F.add_clause([-maybeclique, -m(i1, j2), -m(i2, j1)])
+        elif inindset:
+            F.add_clause([maybeclique, -m(i1, j2), -m(i2, j1)])
     return F
